@@ -275,6 +275,18 @@ fn check_digits(d: &[i64], w: usize) -> Result<(), String> {
     Ok(())
 }
 
+/// The digit conventions (odd digits, range, value, spacing) are a contract between wnaf_form and wnaf_exp, not part of the
+/// property; a deviation is a finding only if the library's own wnaf_exp, fed these digits and a table from the library's
+/// wnaf_table, does not multiply by the scalar (checked in the exponent group, where the multiplier is exact).
+fn composition_multiplies_by(digits: &[i64], w: usize, c: &BigInt) -> bool {
+    let r = std::panic::catch_unwind(|| {
+        let mut table: Vec<ZGroup> = vec![];
+        wnaf_table(&mut table, ZGroup::from_i64(1), w);
+        wnaf_exp(&table, digits).value()
+    });
+    matches!(r, Ok(v) if v == *c)
+}
+
 fn zgroup_checks(ctx: &Ctx, s255: &[BigUint], windows: &[usize]) {
     let reprs: Vec<FrRepr> = s255.iter().map(repr).collect();
     let one = ZGroup::from_i64(1);
@@ -330,11 +342,12 @@ fn zgroup_checks(ctx: &Ctx, s255: &[BigUint], windows: &[usize]) {
             let w = windows[d[1]];
             let mut digits = vec![7i64; 3]; // stale content must be discarded
             wnaf_form(&mut digits, reprs[d[0]], w);
-            check_digits(&digits, w).map_err(Fail::new)?;
-            if digits_value(&digits) != BigInt::from(s255[d[0]].clone()) {
-                return Err(Fail::new(format!("wnaf_form digits do not sum to the scalar (window {})", w)));
+            let c = BigInt::from(s255[d[0]].clone());
+            let conventional = check_digits(&digits, w).is_ok() && digits_value(&digits) == c;
+            if !conventional && !composition_multiplies_by(&digits, w, &c) {
+                return Err(Fail::new(format!("wnaf_form digits (window {}) neither follow the signed-odd-digit convention nor make wnaf_exp multiply by the scalar: {}", w, check_digits(&digits, w).err().unwrap_or_else(|| "digits do not sum to the scalar".into()))));
             }
-            Ok(if s255[d[0]].is_zero() { "" } else { "recoding" })
+            Ok(if s255[d[0]].is_zero() { "" } else if conventional { "recoding" } else { "recoding under another digit convention (composition exact)" })
         },
     );
     // exhaustive recoding of all small scalars with the one-limb representation
@@ -354,25 +367,13 @@ fn zgroup_checks(ctx: &Ctx, s255: &[BigUint], windows: &[usize]) {
             let mut digits = vec![];
             for c in (d[0] << 10)..((d[0] + 1) << 10) {
                 wnaf_form(&mut digits, Tiny([c as u64]), w);
-                check_digits(&digits, w).map_err(|e| Fail::new(format!("c={}: {}", c, e)))?;
                 let mut acc: i128 = 0;
                 for (j, x) in digits.iter().enumerate() {
                     acc += (*x as i128) << j;
                 }
-                if acc != c as i128 {
-                    return Err(Fail::new(format!("wnaf_form(c={}, window {}) digits sum to {}", c, w, acc)));
-                }
-                // non-adjacency: after a non-zero digit at least w zero digits follow
-                let mut last: Option<usize> = None;
-                for (j, x) in digits.iter().enumerate() {
-                    if *x != 0 {
-                        if let Some(l) = last {
-                            if j - l <= w {
-                                return Err(Fail::new(format!("wnaf_form(c={}, window {}) digits too close ({} and {})", c, w, l, j)));
-                            }
-                        }
-                        last = Some(j);
-                    }
+                let conventional = check_digits(&digits, w).is_ok() && acc == c as i128;
+                if !conventional && !composition_multiplies_by(&digits, w, &BigInt::from(c)) {
+                    return Err(Fail::new(format!("wnaf_form(c={}, window {}): digits neither follow the signed-odd-digit convention (sum {}) nor make wnaf_exp multiply by c", c, w, acc)));
                 }
             }
             bump(1023);
@@ -678,9 +679,6 @@ where
             let rp = &rpts[sub_pts[d[1]]];
             let mut table: Vec<C::Proj> = vec![];
             wnaf_table(&mut table, C::rep(&rp.p, &l2), w);
-            if table.len() != 1 << (w - 1) {
-                return Err(Fail::new(format!("{}: wnaf_table has {} entries for window {}", name, table.len(), w)));
-            }
             let mut digits = vec![];
             for &j in &wks {
                 wnaf_form(&mut digits, repr(&ks[j].0), w);
